@@ -1,4 +1,5 @@
 import MidoModel.Proto
+import MidoModel.PySem
 /- Line-protocol driver: one request per line on stdin, one response line on stdout. -/
 open Mido
 
@@ -31,6 +32,34 @@ def handle (st : DState) (line : String) : DState × String :=
       | none => (st, "bad-op")
     | "decblk" => match parseNats args with
       | some [a, b] => (st, decBlock a b)
+      | _ => (st, "bad-op")
+    | "pyop" => match args with
+      -- the operator semantics used by the source translator, for comparison with CPython
+      | op :: rest => match parseInts rest with
+        | some xs0 =>
+          if op == "idx" then
+            match xs0 with
+            | i :: xs => (st, showExcept toString (Py.idx xs i))
+            | [] => (st, "bad-op")
+          else if op == "range" then
+            match xs0 with
+            | [n] => (st, showIntList (Py.rangeInt n))
+            | _ => (st, "bad-op")
+          else match xs0 with
+          | [a, b] =>
+            let r : Except Err Int :=
+              if op == "land" then .ok (Py.land a b) else if op == "lor" then .ok (Py.lor a b)
+              else if op == "shl" then Py.shl a b else if op == "shr" then Py.shr a b
+              else if op == "pow" then Py.pow a b
+              else if op == "shlN" then .ok (Py.shlN a b.toNat) else if op == "shrN" then .ok (Py.shrN a b.toNat)
+              else .error .Other
+            (st, showExcept toString r)
+          | [a] =>
+            if op == "inv" then (st, toString (Py.inv a))
+            else if op == "bitlen" then (st, toString (Py.bitLength a))
+            else (st, "bad-op")
+          | _ => (st, "bad-op")
+        | none => (st, "bad-op")
       | _ => (st, "bad-op")
     | "wf" => match parseInts args with
       | some xs => (st, if wellFormed xs then "1" else "0")
